@@ -81,7 +81,11 @@ Definition float_bits (f : float) : Z :=
 Definition dfloat (f : float) : bytes := "f"%byte :: dec (float_bits f).
 
 Definition dop (o : binop) : bytes := dec (binop_code o).
-Definition dmatcher (m : matcher) : bytes := node ["m"%byte] [dstr (m_label m); dop (m_op m); dstr (m_value m)].
+(** the source of the compiled regexp a node carries: ^(?:v)$ for a label matcher (compileLabelRegex), v itself for a line filter *)
+Definition is_re_op (o : binop) : bool := (binop_code o =? binop_code OpRe) || (binop_code o =? binop_code OpNotRe).
+Definition anchored_src (v : bytes) : bytes := ["^"; "("; "?"; ":"]%byte ++ v ++ [")"; "$"]%byte.
+Definition dmatcher (m : matcher) : bytes :=
+  node ["m"%byte] [dstr (m_label m); dop (m_op m); dstr (m_value m); dstr (if is_re_op (m_op m) then anchored_src (m_value m) else [])].
 Definition dpair (p : bytes * bytes) : bytes := node ["p"%byte] [dstr (fst p); dstr (snd p)].
 
 Fixpoint dpred (p : pred) : bytes :=
@@ -97,7 +101,7 @@ Fixpoint dpred (p : pred) : bytes :=
 
 Definition dstage (s : stage) : bytes :=
   match s with
-  | SLine o v ip => node ["l"; "i"; "n"; "e"]%byte [dop o; dstr v; dbool ip]
+  | SLine o v ip => node ["l"; "i"; "n"; "e"]%byte [dop o; dstr v; dbool ip; dstr (if is_re_op o && negb ip then v else [])]
   | SJson ls es => node ["j"; "s"; "o"; "n"]%byte [dlist dstr ls; dlist dpair es]
   | SLogfmt ls es => node ["l"; "o"; "g"; "f"; "m"; "t"]%byte [dlist dstr ls; dlist dpair es]
   | SRegexp src mp => node ["r"; "e"; "g"; "e"; "x"; "p"]%byte [dstr src; dlist (fun p => node ["c"%byte] [dec (fst p); dstr (snd p)]) mp]
